@@ -1315,7 +1315,7 @@ class ModelQuerySet(AbstractQuerySet):
                 val = col.validate(val)
 
             if val is None:
-                nulled_columns.add(col_name)
+                nulled_columns.add(col.db_field_name)
                 continue
 
             us.add_update(col, val, operation=col_op)
